@@ -30,6 +30,10 @@ class Runaway(BoundExceeded):
     pass
 
 
+class _FragmentStop(Exception):
+    pass
+
+
 class Ptr:
     __slots__ = ('obj', 'off')
 
@@ -166,6 +170,8 @@ class Exec:
         self.trace = None
         self.dump_queries = None  # list collecting (smt2, result) samples for cross-solver checks
         self.exact_consts = False  # symbolic runs: literal/converted constants are exact Fractions (consistent with XR's exact reals)
+        self._frag_stop = None
+        self.fork_minmax = False   # fmin/fmax fork into two paths instead of producing an ite term
         self.stubs = {}           # function name -> callable(path, caller, ins, argvalues): replaces a callee (stated per harness)
         self.floor_hook = None    # callable(path, operand, is_ceil) -> XR, or None for the normal semantics
         self.fptosi_hook = None   # callable(path, operand, target type) -> int value, or None for the normal semantics
@@ -653,10 +659,18 @@ class Exec:
             return z3.If(v >= 0, v, -v)
         if name == 'llvm.fabs.f64' or name == 'fabs':
             return xr.fabs_(a[0])
-        if name == 'llvm.minnum.f64' or name == 'fmin':
-            return xr.fmin(a[0], a[1])
-        if name == 'llvm.maxnum.f64' or name == 'fmax':
-            return xr.fmax(a[0], a[1])
+        if name in ('llvm.minnum.f64', 'fmin', 'llvm.maxnum.f64', 'fmax'):
+            ismin = 'min' in name
+            x, y = a[0], a[1]
+            if self.fork_minmax and not (xr.is_conc(x) and xr.is_conc(y)):
+                lx, ly = xr.lift(x), xr.lift(y)
+                if not lx.special and not ly.special:
+                    # fork instead of building an if-then-else term: every path then fixes every comparison
+                    c = xr.fcmp('le' if ismin else 'ge', lx, ly)
+                    if not isinstance(c, bool):
+                        c = self.decide(path, c)
+                    return x if c else y
+            return xr.fmin(x, y) if ismin else xr.fmax(x, y)
         if name in ('floor', 'llvm.floor.f64', 'ceil', 'llvm.ceil.f64'):
             v = a[0]
             up = 'ceil' in name
@@ -784,7 +798,10 @@ class Exec:
                 if op == 'load':
                     env[ins.dst] = self.load(path, f, ins, self.val(env, ins.a), ins.ty)
                 elif op == 'store':
-                    self.store(path, f, ins, self.val(env, ins.a[1]), self.val(env, ins.a[0]), ins.ty)
+                    tgt = self.val(env, ins.a[1])
+                    if self._frag_stop is not None and isinstance(tgt, Ptr) and tgt.obj is self._frag_stop:
+                        raise _FragmentStop()
+                    self.store(path, f, ins, tgt, self.val(env, ins.a[0]), ins.ty)
                 elif op == 'gep':
                     base = self.val(env, ins.a[0])
                     idx = [self.val(env, c) for c in ins.a[1]]
@@ -893,6 +910,55 @@ class Exec:
                 continue
             off = off + i * s
         return Ptr(o, off)
+
+    # ------------------------------------------------------------ mid-function start (inductive steps / loop-body lemmas)
+    def find_func(self, fname, srcfile=None):
+        f = None
+        if srcfile is not None and getattr(self.mod, 'byfile', None):
+            f = self.mod.byfile.get(srcfile, {}).get(fname)
+        return f or self.mod.funcs[fname]
+
+    def run_fragment(self, path, fname, args, locals_init, start_pred, stop_store_to, srcfile=None):
+        """execute one piece of a function from an arbitrary state: the allocas of the entry block are created, the
+        parameters stored, the named C locals set to `locals_init`, control starts at the first block satisfying
+        start_pred(block name, instructions) and stops just before a store to the local named `stop_store_to`
+        (e.g. the loop counter's increment).  Returns {C local name: value} at the stop."""
+        self.cur_globals = {}
+        f = self.find_func(fname, srcfile)
+        env = dict(zip(f.params, args))
+        names = {}
+        for ins in f.blocks[f.order[0]]:
+            if ins.op == 'alloca':
+                t = ins.ty
+                n = sizeof(t) // sizeof(scalar_of(t))
+                cname = f.vars.get(ins.dst, ins.dst)
+                env[ins.dst] = Ptr(Obj('%s.%s' % (f.name, cname), scalar_of(t), [None] * n, 'alloca'), 0)
+                names[cname] = env[ins.dst]
+            elif ins.op == 'store' and ins.a[0].kind == 'reg' and ins.a[0].v in f.params:
+                self.store(path, f, ins, self.val(env, ins.a[1]), self.val(env, ins.a[0]), ins.ty)
+        for cname, v in locals_init.items():
+            if cname not in names:
+                raise Unsupported('no local named %s in %s' % (cname, fname))
+            names[cname].obj.cells[0] = v
+        start = next((b for b in f.order if start_pred(b, f.blocks[b], f)), None)
+        if start is None:
+            raise Unsupported('fragment start block not found in %s' % fname)
+        stop_obj = names[stop_store_to].obj if stop_store_to in names else None
+        if stop_obj is None:
+            raise Unsupported('no local named %s in %s' % (stop_store_to, fname))
+        self._frag_stop = stop_obj
+        try:
+            r = self.call(path, f, args, start_block=start, init_env=env)
+            ended = 'returned'
+        except _FragmentStop:
+            r = None
+            ended = 'stop'
+        finally:
+            self._frag_stop = None
+        out = {k: p.obj.cells[0] for k, p in names.items()}
+        out['__ended'] = ended
+        out['__ret'] = r
+        return out
 
     # ------------------------------------------------------------ entry
     def run(self, path, fname, args, srcfile=None):
